@@ -142,7 +142,11 @@ def choose_rows(rnd, p1, psim, cfgs, classes, n, thorough):
     rows = []
     for i, p in enumerate(progs):
         u = rnd.random()
-        cfg = STD if u < 0.4 else kec[rnd.randrange(len(kec))] if u < 0.5 else zk[rnd.randrange(len(zk))] if u < 0.56 else nozk[rnd.randrange(len(nozk))]
+        # zero-knowledge circuits carry thousands of blinding rows (seconds each, under every condition): a few
+        if i % 67 == 5:
+            cfg = zk[rnd.randrange(len(zk))]
+        else:
+            cfg = STD if u < 0.4 else kec[rnd.randrange(len(kec))] if u < 0.52 else nozk[rnd.randrange(len(nozk))]
         rows.append({"id": "c%d" % i, "prog": p, "cfg": cfg, "inputs": classes[rnd.randrange(len(classes))],
                      "fallback": dict(STD, keccak=cfg["keccak"])})
     return rows
